@@ -10,6 +10,7 @@ open CtrIO
 open CbcIO
 open Exefs
 open Tmd
+open TmdSer
 open Ncch
 open NcchFull
 open Romfs
@@ -170,6 +171,22 @@ let run_tmd toks =
                                              ^ "," ^ hex_of_z c.c_size ^ "," ^ hex_of_bytes c.c_hash) t.t_chunks)
      | Err e -> "e:" ^ err_name e)
   | _ -> failwith "tmd args"
+
+(* tmdrt <verify 0/1> <rawhex>: bytes(load(raw)) and the fields of the loaded object *)
+let run_tmdrt toks =
+  match toks with
+  | [v; raw] ->
+    (match tmd_load sha256 (bool_of_tok v) (bytes_of_hex raw) with
+     | Ok t ->
+       let o = obj_of t in
+       let ser = (match ser_obj sha256 o with Ok b -> hex_of_bytes b | Err e -> "e:" ^ err_name e) in
+       "ok " ^ ser ^ " F " ^ String.concat " " [
+         hex_of_bytes o.o_issuer; hex_of_z o.o_version; hex_of_z o.o_ca_crl; hex_of_z o.o_signer_crl; hex_of_z o.o_reserved1;
+         hex_of_bytes o.o_sysver; hex_of_bytes o.o_tid; hex_of_bytes o.o_ttype; hex_of_bytes o.o_group;
+         hex_of_z o.o_save; hex_of_z o.o_srl_save; hex_of_bytes o.o_reserved2; hex_of_z o.o_srl_flag; hex_of_bytes o.o_reserved3;
+         hex_of_bytes o.o_access; hex_of_z o.o_tver; hex_of_z o.o_count; hex_of_bytes o.o_boot; hex_of_bytes o.o_padding]
+     | Err e -> "e:" ^ err_name e)
+  | _ -> failwith "tmdrt args"
 
 (* ranges <size> s,e s,e ...  ->  a,b,l ... *)
 let run_ranges toks =
@@ -384,6 +401,7 @@ let dispatch (line : string) : string =
   | "cbc" :: toks -> run_cbc toks
   | "exefs" :: toks -> run_exefs toks
   | "tmd" :: toks -> run_tmd toks
+  | "tmdrt" :: toks -> run_tmdrt toks
   | "ranges" :: toks -> run_ranges toks
   | "fulldec" :: toks -> run_fulldec toks
   | "romfs" :: toks -> run_romfs toks
